@@ -18,7 +18,7 @@ Lemma try_patterns_up s ps u pw : try_patterns interp_code s SUp (0%nat :: ps) u
 Proof. cbn [try_patterns]. rewrite bind_at_first, verdict_up. reflexivity. Qed.
 
 Lemma try_patterns_silent s sv ps u pw : sv <> SUp -> try_patterns interp_code s sv ps u pw = None.
-Proof. intro H. induction ps as [|p r IH]; [reflexivity|]. destruct sv; [congruence| |]; simpl; exact IH. Qed.
+Proof. intro H. induction ps as [|p r IH]; [reflexivity|]. destruct sv; [congruence| | |]; simpl; exact IH. Qed.
 
 Lemma patterns_cons s : patterns s = 0%nat :: seq 1 (extra_patterns s).
 Proof. reflexivity. Qed.
@@ -31,19 +31,20 @@ Proof.
   - rewrite patterns_cons, try_patterns_up. intro H. inversion H. split; [left; reflexivity|reflexivity].
   - rewrite try_patterns_silent by discriminate. intro H. destruct (IH H) as [A B]. split; [right; exact A|exact B].
   - rewrite try_patterns_silent by discriminate. intro H. destruct (IH H) as [A B]. split; [right; exact A|exact B].
+  - rewrite try_patterns_silent by discriminate. intro H. destruct (IH H) as [A B]. split; [right; exact A|exact B].
 Qed.
 
 Lemma first_answer_none s svs u pw : first_answer s svs u pw = None -> ~ In SUp svs.
 Proof.
   unfold first_answer. induction svs as [|sv r IH]; cbn [first_answer_gen]; [simpl; tauto|].
-  destruct sv; [rewrite patterns_cons, try_patterns_up; discriminate| |];
+  destruct sv; [rewrite patterns_cons, try_patterns_up; discriminate| | |];
     rewrite try_patterns_silent by discriminate; intros H [C|C]; try discriminate; exact (IH H C).
 Qed.
 
 Lemma first_answer_in s svs u pw : In SUp svs -> first_answer s svs u pw = Some (dir_accepts s u pw).
 Proof.
   unfold first_answer. induction svs as [|sv r IH]; cbn [first_answer_gen]; [simpl; tauto|].
-  destruct sv; [rewrite patterns_cons, try_patterns_up; reflexivity| |];
+  destruct sv; [rewrite patterns_cons, try_patterns_up; reflexivity| | |];
     rewrite try_patterns_silent by discriminate; intros [C|C]; try discriminate; exact (IH C).
 Qed.
 
@@ -92,15 +93,17 @@ Proof. unfold prun. rewrite fold_left_app. reflexivity. Qed.
 (* "written by an earlier directory-confirmed login of its subject": the history contains a
    Login of the record's subject with the record's password at which a directory server
    answered and accepted, at the instant the record carries as not-before *)
+(* (at this instance, or at another instance that shares the primary database: PeerLogin) *)
 Definition confirmed (n : nat) (ops : list pop) (j : jws) : Prop :=
-  exists pre post, ops = pre ++ Login (j_sub j) (j_pw j) :: post /\
+  exists pre post o, ops = pre ++ o :: post /\
+    (o = Login (j_sub j) (j_pw j) \/ o = PeerLogin (j_sub j) (j_pw j)) /\
     In SUp (servers (prun n pre)) /\
     dir_accepts (prun n pre) (j_sub j) (j_pw j) = true /\
     now (st (prun n pre)) = j_nbf j.
 
 Lemma confirmed_snoc n ops o j : confirmed n ops j -> confirmed n (ops ++ [o]) j.
 Proof.
-  intros [pre [post [E H]]]. exists pre, (post ++ [o]). split; [|exact H].
+  intros [pre [post [o0 [E H]]]]. exists pre, (post ++ [o]), o0. split; [|exact H].
   rewrite E. rewrite <- app_assoc. reflexivity.
 Qed.
 
@@ -119,7 +122,7 @@ Qed.
 Lemma inv_step n ops o : inv n ops (prun n ops) -> inv n (ops ++ [o]) (fst (pstep (prun n ops) o)).
 Proof.
   set (s := prun n ops). intro I.
-  destruct o as [u pw|i sv|u pw|dt|m| |w slot r col|ua da|ds|uh ph]; unfold pstep, pstep_gen.
+  destruct o as [u pw|i sv|u pw|dt|m| |w slot r col|ua da|ds|uh ph|up pwp]; unfold pstep, pstep_gen.
   - (* Login *)
     unfold login_gen. fold (first_answer s (servers s) u pw).
     destruct (first_answer s (servers s) u pw) as [[|]|] eqn:FA; cbn [fst].
@@ -129,7 +132,7 @@ Proof.
       * destruct (I id j H1 G) as [A [B C]]. repeat split; [apply confirmed_snoc; exact A|exact B|exact C].
       * cbn [j_sub j_pw j_nbf j_exp]. destruct (first_answer_some _ _ _ _ _ FA) as [Hup Hacc].
         repeat split; [|lia].
-        exists ops, []. repeat split; [exact Hup|symmetry; exact Hacc].
+        exists ops, [], (Login u pw). repeat split; [left; reflexivity|exact Hup|symmetry; exact Hacc].
     + destruct (get_pw true s u) as [| |j0]; try (apply (inv_keep n ops _ s s I); [reflexivity|lia]).
       destruct (N.eqb (j_pw j0) pw); [|apply (inv_keep n ops _ s s I); [reflexivity|lia]].
       apply (inv_keep n ops _ s _ I); [reflexivity|]. unfold evict. cbn [st with_st]. rewrite now_delsigned. lia.
@@ -148,6 +151,21 @@ Proof.
   - apply (inv_keep n ops _ s _ I); [reflexivity|cbn [fst st]; lia].
   - apply (inv_keep n ops _ s _ I); [reflexivity|cbn [fst st]; lia].
   - apply (inv_keep n ops _ s _ I); [reflexivity|cbn [fst st]; lia].
+  - (* PeerLogin *)
+    cbn [fst]. unfold peer_login. fold (first_answer s (servers s) up pwp).
+    destruct (first_answer s (servers s) up pwp) as [[|]|] eqn:FA.
+    + intros id j H G. cbn [jwss st] in *.
+      assert (NOW : now (set_primary_row (st s) up (Some (mk_srow (N.of_nat (length (jwss s))) (now (st s) + cache_secs) (now (st s))))) = now (st s)) by reflexivity.
+      rewrite NOW.
+      destruct (nth_error_snoc _ _ _ _ H) as [H1|[_ ->]].
+      * destruct (I id j H1 G) as [A [B C]]. repeat split; [apply confirmed_snoc; exact A|exact B|exact C].
+      * cbn [j_sub j_pw j_nbf j_exp]. destruct (first_answer_some _ _ _ _ _ FA) as [Hup Hacc].
+        repeat split; [|lia].
+        exists ops, [], (PeerLogin up pwp). repeat split; [right; reflexivity|exact Hup|symmetry; exact Hacc].
+    + destruct (get_pw true (peer_view s) up) as [| |j0]; try (apply (inv_keep n ops _ s s I); [reflexivity|lia]).
+      destruct (N.eqb (j_pw j0) pwp); [|apply (inv_keep n ops _ s s I); [reflexivity|lia]].
+      apply (inv_keep n ops _ s _ I); [reflexivity|]. cbn [st with_st]. unfold set_primary_row, with_primary. cbn [now]. lia.
+    + apply (inv_keep n ops _ s s I); [reflexivity|lia].
 Qed.
 
 Lemma inv_run n ops : inv n ops (prun n ops).
@@ -360,6 +378,7 @@ Proof.
   - rewrite !patterns_cons, !try_patterns_up. reflexivity.
   - rewrite !try_patterns_silent by discriminate. exact IH.
   - rewrite !try_patterns_silent by discriminate. exact IH.
+  - rewrite !try_patterns_silent by discriminate. exact IH.
 Qed.
 
 Lemma login_patterns_irrelevant s e u pw :
@@ -396,3 +415,189 @@ Lemma ad_masked_by_second_pattern :
   snd (pstep_ad (prun_ad2 1 0 ops) (Login 1 7)) = Some true /\
   snd (pstep_ad (prun_ad2 1 1 ops) (Login 1 7)) = Some false.
 Proof. vm_compute. split; reflexivity. Qed.
+
+(* ------------------------------------------------------------------ the cache is consulted only while the primary does not answer *)
+(* [read_source] (Model/Storage.v) is a function of the primary's CURRENT mode: a read that finds the
+   primary answering takes the primary's row, whatever happened to earlier reads. *)
+Definition with_cache_db (s : pstate) (c : db) : pstate := with_st s (with_cache (st s) c).
+
+Lemma try_patterns_with_st s x sv ps u pw :
+  try_patterns interp_code (with_st s x) sv ps u pw = try_patterns interp_code s sv ps u pw.
+Proof.
+  induction ps as [|p r IH]; [reflexivity|]. cbn [try_patterns].
+  change (bind_at (with_st s x) sv p u pw) with (bind_at s sv p u pw). rewrite IH. reflexivity.
+Qed.
+
+Lemma first_answer_with_st s x svs u pw : first_answer (with_st s x) svs u pw = first_answer s svs u pw.
+Proof.
+  unfold first_answer. induction svs as [|sv r IH]; [reflexivity|]. cbn [first_answer_gen].
+  rewrite IH. change (patterns (with_st s x)) with (patterns s). rewrite try_patterns_with_st. reflexivity.
+Qed.
+
+Lemma get_signed_up_primary x c u t : pmode x = Up -> get_signed (with_cache x c) u t = get_signed x u t.
+Proof. intro M. unfold get_signed, with_cache. cbn [pmode primary cache now]. rewrite M. reflexivity. Qed.
+
+Lemma get_pw_up_primary s c u : pmode (st s) = Up -> get_pw true (with_cache_db s c) u = get_pw true s u.
+Proof.
+  intro M. unfold get_pw, with_cache_db. cbn [st with_st jwss]. rewrite (get_signed_up_primary _ c u pw_type M).
+  reflexivity.
+Qed.
+
+(* while the primary answers, the local cache database has no say: replace its content by anything
+   and the verdict of a login, and what the login leaves in the primary, are the same *)
+Lemma step_upsert_primary x c u t d e : pmode x = Up ->
+  primary (fst (step (with_cache x c) (Upsert u t d e))) = primary (fst (step x (Upsert u t d e))).
+Proof. intro M. unfold step, step_gen, writable, with_cache. cbn [pmode]. rewrite M. reflexivity. Qed.
+
+Lemma step_delsigned_primary x c u t : pmode x = Up ->
+  primary (fst (step (with_cache x c) (DelSigned u t))) = primary (fst (step x (DelSigned u t))).
+Proof. intro M. unfold step, step_gen, writable, with_cache. cbn [pmode]. rewrite M. reflexivity. Qed.
+
+Lemma cache_silent_while_primary_answers s c u pw : pmode (st s) = Up ->
+  snd (login (with_cache_db s c) u pw) = snd (login s u pw) /\
+  primary (st (fst (login (with_cache_db s c) u pw))) = primary (st (fst (login s u pw))).
+Proof.
+  intro M.
+  assert (FA : first_answer_gen interp_code (with_cache_db s c) (servers (with_cache_db s c)) u pw =
+               first_answer_gen interp_code s (servers s) u pw)
+    by (apply (first_answer_with_st s (with_cache (st s) c) (servers s) u pw)).
+  pose proof (get_pw_up_primary s c u M) as GP.
+  unfold login, login_gen. rewrite FA, GP.
+  destruct (first_answer_gen interp_code s (servers s) u pw) as [[|]|]; cbn [snd fst].
+  - split; [reflexivity|]. unfold refresh.
+    assert (W : writable (st (with_cache_db s c)) = writable (st s)) by reflexivity. rewrite W.
+    destruct (writable (st s)); [|reflexivity]. cbn [st with_cache_db with_st].
+    apply step_upsert_primary. exact M.
+  - split; [reflexivity|]. destruct (get_pw true s u) as [| |j]; try reflexivity.
+    destruct (N.eqb (j_pw j) pw); [|reflexivity].
+    unfold evict. cbn [st with_cache_db with_st]. apply step_delsigned_primary. exact M.
+  - split; reflexivity.
+Qed.
+
+(* ... for every history, including those in which earlier reads of the primary failed (PMode
+   outages before): no memory of earlier failures *)
+Lemma cache_only_while_primary_silent n ops c u pw :
+  pmode (st (prun n ops)) = Up ->
+  snd (login (with_cache_db (prun n ops) c) u pw) = snd (login (prun n ops) u pw).
+Proof. intro M. exact (proj1 (cache_silent_while_primary_answers _ c u pw M)). Qed.
+
+(* the verdict follows the primary's CURRENT row: nobody answers, the primary does - a login is
+   accepted only if the primary holds, now, an unexpired row of the user whose record is genuine,
+   current, signed for this user and hashes this password; whatever the cache database holds *)
+Lemma primary_row_decides s u pw :
+  pmode (st s) = Up -> ~ In SUp (servers s) -> snd (login s u pw) = true ->
+  exists r j, aget skey_eqb (u, pw_type) (signed (primary (st s))) = Some r /\ now (st s) < sr_exp r /\
+    nth_error (jwss s) (N.to_nat (sr_data r)) = Some j /\
+    j_genuine j = true /\ j_sub j = u /\ j_pw j = pw /\ j_nbf j <= now (st s) < j_exp j.
+Proof.
+  intros M Hdown. unfold login, login_gen. fold (first_answer s (servers s) u pw).
+  destruct (first_answer s (servers s) u pw) as [v|] eqn:FA.
+  - destruct (first_answer_some _ _ _ _ _ FA) as [C _]. contradiction.
+  - cbn [snd]. unfold get_pw, get_signed. rewrite M. cbn [mode_eqb].
+    destruct (aget skey_eqb (u, pw_type) (signed (primary (st s)))) as [r|] eqn:A; [|discriminate].
+    destruct (unexpired (now (st s)) r) eqn:UX; [|discriminate].
+    destruct (nth_error (jwss s) (N.to_nat (sr_data r))) as [j|] eqn:NE; [|discriminate].
+    destruct (jws_valid true (now (st s)) j) eqn:JV; cbn [negb]; [|discriminate].
+    destruct (N.eqb (j_sub j) u) eqn:SU; cbn [negb]; [|discriminate].
+    intro H. exists r, j. unfold jws_valid in JV. cbn [negb orb] in JV.
+    apply andb_true_iff in JV. destruct JV as [JV Hexp]. apply andb_true_iff in JV. destruct JV as [Hg Hnbf].
+    apply Z.leb_le in Hnbf. apply Z.ltb_lt in Hexp. apply N.eqb_eq in SU, H. unfold unexpired in UX. apply Z.ltb_lt in UX.
+    repeat split; auto.
+Qed.
+
+Lemma evicted_in_primary_refused s u pw :
+  pmode (st s) = Up -> ~ In SUp (servers s) ->
+  aget skey_eqb (u, pw_type) (signed (primary (st s))) = None -> snd (login s u pw) = false.
+Proof.
+  intros M D A. destruct (snd (login s u pw)) eqn:L; [|reflexivity]. exfalso.
+  destruct (primary_row_decides s u pw M D L) as [r [j [A' _]]]. congruence.
+Qed.
+
+(* A variant that REMEMBERS a timed-out read of the primary: for [retry] seconds afterwards GetSigned
+   goes straight to the cache database although the primary answers again (NOT the code: kept for
+   sticky_fallback_refuted).  State: the machine's state and the instant until which the primary is
+   skipped. *)
+Definition sticky_retry : Z := 30.
+Definition pstep_sticky (sr : pstate * Z) (o : pop) : (pstate * Z) * option bool :=
+  let '(s, until) := sr in
+  match o with
+  | Login u pw =>
+      let skipping := now (st s) <? until in
+      let view := if skipping && mode_eqb (pmode (st s)) Up
+                  then with_st s (mk_state (primary (st s)) (cache (st s)) (now (st s)) Slow) else s in
+      let '(s', v) := login view u pw in
+      let s'' := with_st s' (mk_state (primary (st s')) (cache (st s')) (now (st s')) (pmode (st s))) in
+      (* a read of the primary that hangs (mode Out RHang) arms the back-off *)
+      let until' := match pmode (st s) with Out RHang _ => if skipping then until else now (st s) + sticky_retry | _ => until end in
+      ((s'', until'), Some v)
+  | _ => let '(s', v) := pstep s o in ((s', until), v)
+  end.
+Definition prun_sticky (n : nat) (ops : list pop) : pstate * Z :=
+  fold_left (fun sr o => fst (pstep_sticky sr o)) ops (pinit n, 0).
+
+Local Open Scope N_scope.
+(* alice's password 7 is confirmed and cached; one read of the primary times out (a typo of bob's
+   while the primary hangs); the primary answers again; the password is changed and the OTHER
+   instance sees the directory reject 7, which evicts the hash from the shared primary; the
+   directory goes away: the code refuses 7 (the primary answers and has no row), the remembering
+   variant accepts it from its stale cache row *)
+Definition sticky_history : list pop :=
+  [ChangePw 1 7; ChangePw 2 9; PTick 1000%Z; Login 1 7; PMode Slow; Login 2 5; PMode Up;
+   ChangePw 1 8; PeerLogin 1 7; SetServer 0 SDown; PTick 5%Z; Login 1 7].
+
+Lemma sticky_fallback_refuted :
+  let ops := removelast sticky_history in
+  pmode (st (prun 1 ops)) = Up /\ ~ In SUp (servers (prun 1 ops)) /\
+  aget skey_eqb (1, pw_type) (signed (primary (st (prun 1 ops)))) = None /\
+  snd (pstep_sticky (prun_sticky 1 ops) (Login 1 7)) = Some true /\
+  snd (pstep (prun 1 ops) (Login 1 7)) = Some false.
+Proof. vm_compute. repeat split; try reflexivity. intros [H|[]]. discriminate H. Qed.
+
+(* the same with a refresh at the other instance: the new password 8, confirmed by the directory
+   there, is what the primary holds; the code accepts 8 and refuses 7 during the outage, the
+   remembering variant does the opposite *)
+Definition sticky_history2 : list pop :=
+  [ChangePw 1 7; ChangePw 2 9; PTick 1000%Z; Login 1 7; PMode Slow; Login 2 5; PMode Up;
+   ChangePw 1 8; PeerLogin 1 8; SetServer 0 SDown; PTick 5%Z].
+
+Lemma sticky_fallback_refuted2 :
+  snd (pstep (prun 1 sticky_history2) (Login 1 8)) = Some true /\
+  snd (pstep (prun 1 sticky_history2) (Login 1 7)) = Some false /\
+  snd (pstep_sticky (prun_sticky 1 sticky_history2) (Login 1 8)) = Some false /\
+  snd (pstep_sticky (prun_sticky 1 sticky_history2) (Login 1 7)) = Some true.
+Proof. vm_compute. repeat split; reflexivity. Qed.
+Local Close Scope N_scope.
+
+(* ------------------------------------------------------------------ the text test of the code before the repair *)
+(* CheckLDAPUserPassword looked for the words "Invalid Credentials" in the error text.  A replica that
+   answers every bind with another result code (busy, unavailable, operations error ...) and a
+   diagnostic that mentions those words was taken for a directory that REFUSES: with a healthy second
+   replica that would have accepted, alice's right password 7 is rejected and her cached hash evicted;
+   with no healthy replica at all the cache should fill the outage and instead the hash is evicted. *)
+Definition prun_text (n : nat) (ops : list pop) : pstate :=
+  fold_left (fun s o => fst (pstep_text s o)) ops (pinit n).
+Local Open Scope N_scope.
+Definition misleading_history : list pop :=
+  [ChangePw 1 7; PTick 1000%Z; Login 1 7; SetServer 0 SMisleading; Login 1 7].
+
+Lemma old_text_test_refuted :
+  let ops := removelast misleading_history in
+  (* two replicas, the second is up and the directory accepts *)
+  In SUp (servers (prun 2 ops)) /\ dir_accepts (prun 2 ops) 1 7 = true /\
+  snd (pstep_text (prun_text 2 ops) (Login 1 7)) = Some false /\
+  aget skey_eqb (1, pw_type) (signed (primary (st (fst (pstep_text (prun_text 2 ops) (Login 1 7)))))) = None /\
+  snd (pstep (prun 2 ops) (Login 1 7)) = Some true /\
+  (* one replica: nobody answers, the cache fills the outage - the text test rejects and evicts *)
+  snd (pstep (prun 1 ops) (Login 1 7)) = Some true /\
+  snd (pstep_text (prun_text 1 ops) (Login 1 7)) = Some false /\
+  aget skey_eqb (1, pw_type) (signed (cache (st (fst (pstep_text (prun_text 1 ops) (Login 1 7)))))) = None.
+Proof. vm_compute. repeat split; try reflexivity. right. left. reflexivity. Qed.
+Local Close Scope N_scope.
+
+(* only result code 49 is a verdict: any other result code, whatever its diagnostic says, is "this
+   server did not answer" *)
+Lemma other_code_no_verdict c d : c <> invalid_credentials -> verdict interp_code (RRefused c d) = None.
+Proof. intro H. cbn. unfold interp_code. destruct (N.eqb c invalid_credentials) eqn:E; [apply N.eqb_eq in E; congruence|reflexivity]. Qed.
+
+Lemma misleading_replica_silent s ps u pw : try_patterns interp_code s SMisleading ps u pw = None.
+Proof. apply try_patterns_silent. discriminate. Qed.
